@@ -227,7 +227,7 @@ def simulate_scene(scene: Scene, obj=None, probes=None) -> np.ndarray:
 
 def build_library(scene: Scene, intensities: np.ndarray, *, com_fit="no_shift", install_truth=True, obj_init=None, seed=0, detector_mask=None,
                   val_ratio=0.0, val_mode="grid", learn_descan=False, learn_scan_positions=False, orthogonalize=True, vectorized=True, probe_from="params",
-                  detector_units="A^-1", dset_pre=(), pt_twice=False):
+                  detector_units="A^-1", dset_pre=(), pt_twice=False, dataset_file=None, probe_order=None):
     """Runs the library's own construction + preprocessing on the simulated data and returns the Ptychography object.
 
     obj_init: None -> truth object installed via ObjectPixelated.from_array; "uniform" -> library default initial object.
@@ -251,6 +251,10 @@ def build_library(scene: Scene, intensities: np.ndarray, *, com_fit="no_shift", 
             array=np.asarray(intensities, dtype=np.float32), name="vf-scene", origin=np.zeros(4),
             sampling=[scene.scan_step_A[0], scene.scan_step_A[1], dq[0], dq[1]], units=["A", "A", detector_units, detector_units],
         )
+        if dataset_file is not None:
+            # the raw data also lives in a file (as for every real acquisition): a reconstruction saved without its data reloads it from there
+            d4.save(dataset_file, mode="o")
+            d4.file_path = dataset_file
         pdset = PtychographyDatasetRaster.from_dataset4dstem(d4, detector_mask=detector_mask, verbose=0, learn_descan=learn_descan, learn_scan_positions=learn_scan_positions)
         for earlier in dset_pre:
             # history: earlier preprocessing passes on the same dataset object (e.g. trying another descan fit first) must not matter,
@@ -278,7 +282,8 @@ def build_library(scene: Scene, intensities: np.ndarray, *, com_fit="no_shift", 
         if not orthogonalize:
             pt.probe_model.add_constraint("orthogonalize_probe", False)
         if install_truth:
-            pt.probe_model.probe = torch.tensor(scene.probes.astype(np.complex64))
+            prb = scene.probes if probe_order is None else scene.probes[list(probe_order)]  # the order of incoherent modes is physically irrelevant
+            pt.probe_model.probe = torch.tensor(prb.astype(np.complex64))
     return pt
 
 
